@@ -89,6 +89,30 @@ class Cell:
         return None
 
 
+LITERAL_IDS = ['None', '0', 'storyID', 'False', 'x' * 120, ' a b ', 'nan', '-1', 'item', '\u00e9\u4e2d\U0001F600', '1e3', 'roCreate',
+               '..', '*', "it's", 'p']
+
+
+def id_variant(cell, ex):
+    """The same example with every one-character ID replaced by a longer / literal-looking one (equal values stay
+    equal, different values stay different): IDs are opaque strings, so the verdict must be the same."""
+    if ex is None:
+        return None
+    idlike = [n for n, t in cell.sym if t == 'str' and ('len(%s) == 1' % n) in cell.pre and
+              PRINTABLE.format(v=n) in cell.pre and not (len(n) == 2 and n[0] in 'cq' and n[1].isdigit())]
+    if not idlike:
+        return None
+    mapping, out = {}, dict(ex)
+    for n in idlike:
+        v = ex.get(n)
+        if not isinstance(v, str):
+            return None
+        if v not in mapping:
+            mapping[v] = LITERAL_IDS[len(mapping) % len(LITERAL_IDS)] + ('' if len(mapping) < len(LITERAL_IDS) else str(len(mapping)))
+        out[n] = mapping[v]
+    return out
+
+
 def distinct(names):
     return ['%s != %s' % (x, y) for x, y in itertools.combinations(names, 2)]
 
